@@ -2,6 +2,8 @@ package main
 
 import (
 	"fmt"
+	"os"
+	"runtime/debug"
 
 	"github.com/hyperjumptech/grule-rule-engine/ast"
 	"github.com/hyperjumptech/grule-rule-engine/builder"
@@ -9,13 +11,13 @@ import (
 )
 
 func main() {
+	defer func() {
+		if r := recover(); r != nil {
+			fmt.Println("PANIC", r)
+			debug.PrintStack()
+		}
+	}()
 	lib := ast.NewKnowledgeLibrary()
-	rb := builder.NewRuleBuilder(lib)
-	err := rb.BuildRuleFromResource("A", "1", pkg.NewBytesResource([]byte(`rule ra { when K.B then K.S = F.Cat("a", "b"); }
-rule rb { when K.B then G.S = F.Cat("a\"))),E(EA(C(string->\"b"); }`)))
+	err := builder.NewRuleBuilder(lib).BuildRuleFromResource("A", "1", pkg.NewBytesResource([]byte(os.Args[1])))
 	fmt.Println(err)
-	kb := lib.GetKnowledgeBase("A", "1")
-	for _, r := range kb.RuleEntries {
-		fmt.Println(r.ThenScope.GetSnapshot())
-	}
 }
